@@ -71,16 +71,33 @@ Round == /\ phase = "S" /\ s.crash = "" /\ tick < MaxTick
               /\ asg' = IF full.crash = "" THEN ab ELSE <<>>
          /\ phase' = "E" /\ UNCHANGED tick
 
+(* ---- optional behaviours of a configuration: record fields of Cfg, absent = off ---- *)
+Opt(name) == name \in DOMAIN Cfg /\ Cfg[name]
+\* goOn: the caller catches a refusal of the verification phase and goes on using the executor.  The refused call is not a tick; it
+\* leaves behind what the pool had done up to the refusal (the valid suspensions of the batch applied; for a wrong operator count the
+\* containers of the earlier assignments of the batch started).  Modelled only where no pool has run before the refusal - one pool,
+\* or a pool number that does not exist - because otherwise the results of the earlier pools are lost with the exception.
+Refusals == {"over_cpu", "over_ram", "no_such_pool", "suspend_unknown", "suspend_not_boundary", "nops"}
+GoesOn(post) == Opt("goOn") /\ post.crash \in Refusals /\ (Cfg.np = 1 \/ post.crash = "no_such_pool")
+LeftBehind(post) == [post EXCEPT !.crash = "", !.results = <<>>]
+
 Exec  == /\ phase = "E" /\ s.crash = ""
          /\ LET post == ExecTick(Cfg, WL, s, sus, asg) IN
               /\ Assert(C03_RejectWholeStep(s, post), "C03_RejectWhole")
               /\ Assert(C09_UnknownPoolStep(post), "C09_UnknownPoolRejected")
               /\ Assert(C10_ElseRejectedStep(s, post), "C10_ElseRejected")
-              /\ s' = Collapse(post)
+              /\ s' = IF GoesOn(post) THEN LeftBehind(post) ELSE Collapse(post)
          /\ phase' = "S" /\ tick' = tick + 1
          /\ IF CollapseCrash THEN sus' = <<>> /\ asg' = <<>> ELSE UNCHANGED <<sus, asg>>
 
-Next == Round \/ Exec
+\* extKill: somebody calls Container.kill(error) on a live container between two ticks
+ExtKill == /\ phase = "S" /\ s.crash = "" /\ Opt("extKill") /\ tick < MaxTick
+           /\ \E k \in 1..Cfg.np : \E cid \in Range(s.pools[k].active) :
+                 /\ ~s.ctr[cid].done
+                 /\ s' = ExternalKill(Cfg, WL, s, cid, "evicted")
+           /\ UNCHANGED <<tick, phase, sus, asg>>
+
+Next == Round \/ Exec \/ ExtKill
 Spec == Init /\ [][Next]_vars
 
 (* =========================== invariants / action properties =========================== *)
@@ -101,7 +118,7 @@ C01_RejectNotExecute ==
               /\ ~\E j \in 1..Len(sus) : sus[j].cid = c
               /\ ~s.ctr[c].done /\ s.ctr[c].seg = 0 /\ StuckParent(s, s.ctr[c].ops[s.ctr[c].idx + 1])
         \/ \E j \in 1..Len(asg) : StuckParent(s, asg[j].ops[1])))
-     => s'.crash # ""]_vars
+     => ExecTick(Cfg, WL, s, sus, asg).crash # ""]_vars          \* (refused; a caller that goes on afterwards does not change that)
 
 \* ---- C02 ----
 Reach1(a) == Table[a]
@@ -115,7 +132,7 @@ C02_OneLiveContainer == OK => \A o \in AllOps :
    Cardinality({c \in AllLive(Cfg, s) : o \in UnfinishedOps(s.ctr[c])}) <= 1
 \* live, unfinished operators are exactly in the states their container implies
 C02_StatesMatchContainers == OK /\ phase = "S" => \A k \in 1..Cfg.np :
-   /\ \A c \in Range(s.pools[k].active) : \A j \in 1..Len(s.ctr[c].ops) :
+   /\ \A c \in {x \in Range(s.pools[k].active) : ~s.ctr[x].done} : \A j \in 1..Len(s.ctr[c].ops) :      \* (done = killed from outside, reaped by the next tick)
          Ost(s, s.ctr[c].ops[j]) = (IF j <= s.ctr[c].idx THEN "completed"
                                     ELSE IF j = s.ctr[c].idx + 1 /\ s.ctr[c].seg > 0 THEN "running" ELSE "assigned")
    /\ \A c \in Range(s.pools[k].suspending) : \A j \in (s.ctr[c].idx + 1)..Len(s.ctr[c].ops) :
@@ -139,7 +156,7 @@ C04_ReportedIsSum == OK /\ phase = "S" => \A k \in 1..Cfg.np : s.pools[k].cons =
 C04_KillJustified == OK /\ phase = "S" => \A k \in 1..Cfg.np : LET kl == s.klog[k] IN
    /\ \A c \in kl.own : s.ctr[c].err = "OOM"
    /\ kl.victims # {} => (Cfg.oc /\ kl.U > Cfg.ramcap)
-   /\ \A j \in 1..Len(s.results) : s.results[j].pool = k /\ s.results[j].err # "" => s.results[j].cid \in kl.own \cup kl.victims
+   /\ \A j \in 1..Len(s.results) : s.results[j].pool = k /\ s.results[j].err = "OOM" => s.results[j].cid \in kl.own \cup kl.victims
 C04_NoPoolKillWithoutOvercommit == OK /\ ~Cfg.oc => \A k \in 1..Cfg.np : s.klog[k].victims = {}
 
 \* ---- C05 (executor side) ---- every operator occupies at least one tick: no internal failure of the tick generator
@@ -163,9 +180,14 @@ C09_ResultShape ==      \* at the moment of the result: success <=> all complete
         THEN c.idx = Len(c.ops) /\ \A m \in 1..Len(c.ops) : Ost(s, c.ops[m]) = "completed"
         ELSE /\ c.idx < Len(c.ops)
              /\ \A m \in 1..c.idx : Ost(s, c.ops[m]) = "completed"
-             /\ \A m \in (c.idx + 1)..Len(c.ops) : Ost(s, c.ops[m]) = "failed"
+             \* (operators failed by a kill from outside may have been handed to a scheduler again before the old container is reaped)
+             /\ s.results[j].err = "OOM" => \A m \in (c.idx + 1)..Len(c.ops) : Ost(s, c.ops[m]) = "failed"
+\* (a batch refused for overselling, for an unknown pool or for a bad Suspend was not accepted: it creates no container at all)
 C09_OneContainerPerAssignment ==
-   [][(phase = "E" /\ s'.crash = "") => Len(s'.ctr) = Len(s.ctr) + Len(asg)]_vars
+   [][(phase = "E" /\ s'.crash = "") =>
+        LET why == ExecTick(Cfg, WL, s, sus, asg).crash IN
+        /\ why = "" => Len(s'.ctr) = Len(s.ctr) + Len(asg)
+        /\ why \in Refusals \ {"nops"} => Len(s'.ctr) = Len(s.ctr)]_vars
 
 \* ---- C10 ----
 C10_CanIffBoundary == OK => \A k \in 1..Cfg.np : \A c \in Range(s.pools[k].active) :
